@@ -5,7 +5,7 @@ Every model is re-extracted from the facts of the current tree; anchors are foun
 by trait identity / public API name, helpers by role through dataflow.
 """
 from .core import AnchorError, callee_name, strip, show, simplify_val
-from .sem import norm, nshow, atom_of, atoms_at, fmt_pieces, show_atom
+from .sem import norm, nshow, atom_of, atoms_at, fmt_pieces, show_atom, is_dropflag_cond
 from . import boolsum
 
 ENCODE = "percent_encoding::utf8_percent_encode"
@@ -763,7 +763,9 @@ def edge_triggers(body, bb, depth=0):
         if body.is_cleanup(p):
             continue
         eg = body.edge_guards(p, bb)
-        if eg is not None:
+        if eg is not None and is_dropflag_cond(eg[0]):
+            out.extend(edge_triggers(body, p, depth + 1) if depth < 4 else [])
+        elif eg is not None:
             out.append((p, canon_atom(atom_of(eg[0], eg[1]))))
         else:
             t = body.term(p)
